@@ -49,7 +49,7 @@ func VH_C09_unary(maxN, maxK, maxV int) {
 // VH_C09_stream: the streamed read delivers, over all its messages, exactly
 // the unary unlimited view; all messages but the last are flagged more; the
 // last is flagged more iff the limit cut the range.
-func VH_C09_stream(maxN, maxK, maxV int) {
+func VH_C09_stream(maxN, maxK, maxV, lazy int) {
 	db := vhOpenDB()
 	ref := vhArbitraryStateSys(db, maxN, maxK, maxV, true)
 	f := vhFSM(db, nil)
@@ -59,6 +59,13 @@ func VH_C09_stream(maxN, maxK, maxV int) {
 	limit := verif.Concretize(verif.Int(), 0, maxN+1)
 	out, err := f.Lookup(IteratorRequest{RangeOp: &regattapb.RequestOp_Range{Key: a, RangeEnd: b, KeysOnly: keysOnly, CountOnly: countOnly, Limit: int64(limit)}})
 	verif.Assert(err == nil, "iterator request succeeds")
+	if lazy != 0 {
+		// the stream is consumed lazily: other reads are served between opening it
+		// and its first pull (they must not disturb its bounds)
+		_, _ = f.Lookup(&regattapb.RequestOp_Range{Key: vhArbKey(1, maxK)})
+		_, _ = f.Lookup(&regattapb.RequestOp_Range{Key: vhArbKey(1, 1), RangeEnd: vhArbKey(1, 1), CountOnly: true})
+		verif.Cover("reads-before-first-pull")
+	}
 	chunks := iter.Collect(out.(iter.Seq[*regattapb.ResponseOp_Range]))
 	verif.Assert(len(chunks) >= 1, "at least one message")
 	wk, wv := ref.rng(a, b)
